@@ -54,6 +54,17 @@ def build():
             r is Ok ==> (exists|g: u64| is_translation(old(self).mappings@, descriptor, g)) && (exists|g: u64| is_translation(old(self).mappings@, available, g))
                 && (exists|g: u64| is_translation(old(self).mappings@, used, g)), // [C14,C13] accepted only if every address lies in a current region""")
     u.raw("}")
+    # ---- C13: VhostUserMemoryRegion::mmap_region (message.rs, default feature set): the mapping is made from the PASSED file, at the
+    # message's mmap_offset, memory_size bytes long (was an assumed stub until the third session)
+    msg = Source("vhost/src/vhost_user/message.rs")
+    u.raw("impl RegionMsg {")
+    u.extracted_fn(msg, "mmap_region", nth=0,
+                   sig_rw=[("R3", r'<B: NewBitmap>', ''), ("R3", r'file: File\b', 'file: FileStub'), ("R3", r'Result<MmapRegion<B>>', 'VhostUserResult<MmapRegionStub>')],
+                   body_rw=[("R3", r'MmapRegion::<B>::from_file\(', 'MmapRegionStub::from_file('),
+                            ("R6", r'\.map_err\(\|e\| Error::ReqHandlerError\(io::Error::other\(e\)\)\)', '.map_err(|e: MmapErr| -> (o: VhostUserError) { VhostUserError::ReqHandlerError(IoError::Other) })')],
+                   contract="""
+        ensures r is Ok ==> r->Ok_0 == (MmapRegionStub { size: self.memory_size, file: file.id@, off: self.mmap_offset }), // [C13:region-maps-its-file] the region is mapped from the descriptor that came with it, at the message's mmap_offset, memory_size bytes long""")
+    u.raw("}")
     # ---- C13: SET_MEM_TABLE / ADD_MEM_REG / REM_MEM_REG
     MEMRW = [("R6", r'Arc::new\(\s*GuestRegionMmap::new\(\s*region\.mmap_region\(file\)\?,\s*GuestAddress\(region\.guest_phys_addr\),\s*\)\s*\.ok_or\(VhostUserError::ReqHandlerError\(\s*io::ErrorKind::InvalidInput\.into\(\),?\s*\)\)\?,?\s*\)',
               'guest_region_new(region.mmap_region(file)?, GuestAddress(region.guest_phys_addr))?'),
